@@ -183,7 +183,7 @@ def full_name(h):
     return "generated::proofs::" + h.name
 
 
-def run_chunk(cfg, slot, chunk, logdir, playback=False):
+def run_chunk(cfg, slot, chunk, logdir, playback=False, focus=None):
     """Run one `cargo kani` process over a chunk of harnesses; returns {name: parsed result}."""
     base, crate = prepare_crate(cfg, slot)
     target = os.path.join(base, "target")
@@ -199,14 +199,19 @@ def run_chunk(cfg, slot, chunk, logdir, playback=False):
     per = max(h.timeout for h in chunk)
     cmd += ["--harness-timeout", "%ds" % per]
     os.makedirs(logdir, exist_ok=True)
-    logpath = os.path.join(logdir, "chunk-%s-%d-%s%s.log" % (
-        cfg, slot, chunk[0].name, "-playback" if playback else ""))
+    logpath = os.path.join(logdir, "chunk-%s-%d-%s%s%s.log" % (
+        cfg, slot, chunk[0].name, "-playback" if playback else "", ("-focus-" + focus) if focus else ""))
+    env = cargo_env()
+    if focus:
+        env["VERIF_FOCUS"] = focus
+    else:
+        env.pop("VERIF_FOCUS", None)
     t0 = time.time()
     with open(logpath, "w") as lf:
         lf.write("# " + " ".join(cmd) + "\n")
         lf.flush()
         try:
-            p = subprocess.run(cmd, cwd=crate, env=cargo_env(), stdout=lf, stderr=subprocess.STDOUT,
+            p = subprocess.run(cmd, cwd=crate, env=env, stdout=lf, stderr=subprocess.STDOUT,
                                timeout=tmax + 900, preexec_fn=limit_mem)
             rc = p.returncode
         except subprocess.TimeoutExpired:
@@ -452,6 +457,30 @@ def run_all(hs, jobs, use_cache, logdir):
     return results
 
 
+def run_focus(hs, prop, jobs, logdir):
+    """Re-run harnesses with assertions of other properties compiled out (no cache)."""
+    results = {}
+    slots = list(range(jobs))
+    slot_lock = threading.Lock()
+
+    def worker(h):
+        with slot_lock:
+            slot = slots.pop(0)
+        try:
+            res = run_chunk(h.cfg, slot, [h], logdir, playback=True, focus=prop)
+            return h, res.get(h.name, {"status": "MISSING"})
+        finally:
+            with slot_lock:
+                slots.append(slot)
+                slots.sort()
+
+    with ThreadPoolExecutor(max_workers=jobs) as ex:
+        for h, r in ex.map(worker, hs):
+            r["cache_hit"] = False
+            results[h.name] = r
+    return results
+
+
 # ------------------------------------------------------------------------------------------------
 # native replay
 # ------------------------------------------------------------------------------------------------
@@ -494,10 +523,14 @@ def build_replayer(cfg, profile):
         return binp
 
 
-def native_replay(h, values, profile):
+def native_replay(h, values, profile, focus=None):
     binp = build_replayer(h.cfg, profile)
+    env = dict(os.environ)
+    env.pop("VERIF_FOCUS", None)
+    if focus:
+        env["VERIF_FOCUS"] = focus
     p = subprocess.run([binp, h.name, json.dumps(values)], stdout=subprocess.PIPE,
-                       stderr=subprocess.PIPE, text=True, timeout=120)
+                       stderr=subprocess.PIPE, text=True, timeout=120, env=env)
     for line in p.stdout.splitlines():
         if line.startswith("REPLAY "):
             try:
@@ -577,7 +610,7 @@ def evaluate(prop, h, r):
                     vals = p["values"]
                     break
         item = {"mode": "panic", "description": f["description"], "location": f.get("location", ""),
-                "values": vals, "tags": tags}
+                "values": vals, "tags": tags, "focus": r.get("focus")}
         if f["description"].startswith("harness:"):
             issues.append({"kind": "inconclusive", "why": "%s: harness self-check failed: %s" % (
                 h.name, f["description"])})
@@ -601,6 +634,7 @@ def evaluate(prop, h, r):
 def confirm(prop, h, issue):
     """Replay a candidate natively (dev and release). Returns (reproduced, record)."""
     rec = {"property": prop, "harness": h.name, "cfg": h.cfg, "body": h.body, "args": h.args,
+           "focus": issue.get("focus"),
            "expect": h.expect, "description": issue["description"],
            "location": issue.get("location", ""), "values": issue.get("values"),
            "mode": issue["mode"], "native": {}}
@@ -609,7 +643,7 @@ def confirm(prop, h, issue):
         return False, rec
     reproduced = False
     for profile in ("dev", "release"):
-        out = native_replay(h, issue["values"], profile)
+        out = native_replay(h, issue["values"], profile, focus=issue.get("focus"))
         rec["native"][profile] = out
         if issue["mode"] == "returned":
             if out.get("outcome") == "returned":
@@ -730,6 +764,26 @@ def check_property(prop, tier, seed, jobs, use_cache, only):
     others = []
     known = load_known()
     known_lines = []
+    # Kani assumes an assertion after checking it, so a failing assertion that belongs to another
+    # property can mask this property's own assertions further down the same harness. Such
+    # harnesses are re-run with VERIF_FOCUS=<this property>: assertions of other properties are
+    # then compiled out, and the verdict is about this property alone.
+    masked = []
+    for h in hs:
+        r = results.get(h.name, {"status": "MISSING"})
+        iss = evaluate(prop, h, r)
+        if any(i["kind"] == "other_property" for i in iss):
+            masked.append(h)
+    if masked:
+        log("  %d harness(es) fail on assertions of other properties; re-running them focused on %s" % (
+            len(masked), prop))
+        fres = run_focus(masked, prop, jobs, logdir)
+        for h in masked:
+            fr = fres.get(h.name)
+            if fr:
+                fr["focus"] = prop
+                fr["unfocused_failures"] = [f["description"] for f in results[h.name].get("failed", [])]
+                results[h.name] = fr
     for h in hs:
         r = results.get(h.name, {"status": "MISSING"})
         for issue in evaluate(prop, h, r):
@@ -807,7 +861,7 @@ def do_replay(prop, path):
         return 2
     reproduced = False
     for profile in ("dev", "release"):
-        out = native_replay(h, rec["values"], profile)
+        out = native_replay(h, rec["values"], profile, focus=rec.get("focus"))
         log("replay %s [%s]: %s" % (h.name, profile, json.dumps(out)))
         if rec.get("mode") == "returned":
             reproduced |= out.get("outcome") == "returned"
